@@ -68,38 +68,1184 @@ def renderInt (neg plus : Bool) (ds : Str) : Str :=
 example : (FReal.mk .minus ['1'] true ['0'] (.bare true ['1','0','0'])).WF := by
   refine ⟨?_, ?_, ?_, ?_, ?_, ?_⟩ <;> simp [ExpForm.WF, isDigit] <;> decide
 
-theorem fortranFloat_total (s : Str) : ∃ o, fortranFloat s = .ok o := by
-  sorry
+/-! ### the alphabet of `float()` -/
 
-theorem fortranInt_total (s : Str) : ∃ o, fortranInt s = .ok o := by
-  sorry
+theorem floatAlpha_lowerChar (c : Char) : floatAlpha (lowerChar c) = floatAlpha c := by
+  unfold floatAlpha; rw [lowerChar_idem]
+
+theorem floatAlpha_digit {c : Char} (h : isDigit c = true) : floatAlpha c = true :=
+  isDigit_elim h (P := fun d => floatAlpha d = true) (by decide)
+
+theorem floatAlpha_of_lower {c : Char} {s1 L : Str} (hc : c ∈ s1) (hL : lower s1 = L)
+    (hall : ∀ x ∈ L, floatAlpha x = true) : floatAlpha c = true := by
+  rw [← floatAlpha_lowerChar]
+  exact hall _ (hL ▸ mem_lower hc)
+
+theorem takeWhile_all {p : Char → Bool} {l : Str} (h : ∀ c ∈ l, p c = true) : l.takeWhile p = l := by
+  have := List.takeWhile_append_of_pos (l₂ := []) h
+  simpa using this
+
+theorem dropWhile_all {p : Char → Bool} {l : Str} (h : ∀ c ∈ l, p c = true) : l.dropWhile p = [] := by
+  have := List.dropWhile_append_of_pos (l₂ := []) h
+  simpa using this
+
+theorem parseExpTail_some {r : Str} {e : Int} (h : parseExpTail r = some e) :
+    ∀ c ∈ r, isDigit c = true ∨ c = '-' ∨ c = '+' := by
+  unfold parseExpTail at h
+  simp only at h
+  split at h
+  · cases h
+  · rename_i hc
+    simp only [Bool.or_eq_true, Bool.not_eq_true', not_or, Bool.not_eq_true, Bool.not_eq_false] at hc
+    have hd : (takeSign r).2.dropWhile isDigit = [] := by simpa using hc.2
+    have ht : (takeSign r).2 = (takeSign r).2.takeWhile isDigit := by
+      have := List.takeWhile_append_dropWhile (p := isDigit) (l := (takeSign r).2)
+      rw [hd] at this; simpa using this.symm
+    have hdig : ∀ c ∈ (takeSign r).2, isDigit c = true := by
+      intro c hc; rw [ht] at hc; exact mem_takeWhile_imp hc
+    intro c hcr
+    rcases takeSign_cases r with ⟨h1, t, rfl⟩ | ⟨h1, t, rfl⟩ | ⟨h1, _⟩
+    · rw [h1] at hdig
+      rcases List.mem_cons.mp hcr with rfl | h'
+      · simp
+      · exact Or.inl (hdig c (by simpa using h'))
+    · rw [h1] at hdig
+      rcases List.mem_cons.mp hcr with rfl | h'
+      · simp
+      · exact Or.inl (hdig c (by simpa using h'))
+    · rw [h1] at hdig
+      exact Or.inl (hdig c hcr)
+
+theorem parseExp_some {r : Str} {e : Int} (h : parseExp r = some e) :
+    ∀ c ∈ r, floatAlpha c = true := by
+  cases r with
+  | nil => simp
+  | cons x xs =>
+    rw [parseExp_cons] at h
+    split at h
+    · rename_i hx
+      intro c hc
+      rcases List.mem_cons.mp hc with rfl | h'
+      · simp only [Bool.or_eq_true, decide_eq_true_eq] at hx
+        rcases hx with rfl | rfl <;> decide
+      · rcases parseExpTail_some h c h' with hd | rfl | rfl
+        · exact floatAlpha_digit hd
+        · decide
+        · decide
+    · cases h
+
+theorem fracPart_mem (r1 : Str) :
+    ∀ c ∈ r1, c = '.' ∨ isDigit c = true ∨ c ∈ (fracPart r1).2 := by
+  intro c hc
+  by_cases h : ∃ t, r1 = '.' :: t
+  · obtain ⟨t, rfl⟩ := h
+    rw [fracPart_dot]
+    rcases List.mem_cons.mp hc with rfl | h'
+    · simp
+    · rw [← List.takeWhile_append_dropWhile (p := isDigit) (l := t)] at h'
+      rcases List.mem_append.mp h' with h'' | h''
+      · exact Or.inr (Or.inl (mem_takeWhile_imp h''))
+      · exact Or.inr (Or.inr h'')
+  · rw [fracPart_other]
+    · exact Or.inr (Or.inr hc)
+    · intro x r hr hx; exact h ⟨r, by rw [hr, hx]⟩
+
+theorem parseNum_some {neg : Bool} {s1 : Str} {v : FVal} (h : parseNum neg s1 = some v) :
+    ∀ c ∈ s1, floatAlpha c = true := by
+  unfold parseNum at h
+  simp only at h
+  split at h
+  · cases h
+  · split at h
+    · rename_i e he
+      intro c hc
+      rw [← List.takeWhile_append_dropWhile (p := isDigit) (l := s1)] at hc
+      rcases List.mem_append.mp hc with h' | h'
+      · exact floatAlpha_digit (mem_takeWhile_imp h')
+      · rcases fracPart_mem _ c h' with rfl | hd | h''
+        · decide
+        · exact floatAlpha_digit hd
+        · exact parseExp_some he c h''
+    · cases h
+
+theorem parseBody_some {neg : Bool} {s1 : Str} {v : FVal} (h : parseBody neg s1 = some v) :
+    ∀ c ∈ s1, floatAlpha c = true := by
+  unfold parseBody at h
+  split at h
+  · rename_i hl
+    simp only [Bool.or_eq_true, decide_eq_true_eq] at hl
+    intro c hc
+    rcases hl with hl | hl
+    · exact floatAlpha_of_lower hc hl (by decide)
+    · exact floatAlpha_of_lower hc hl (by decide)
+  · split at h
+    · rename_i hl
+      intro c hc
+      exact floatAlpha_of_lower hc hl (by decide)
+    · exact parseNum_some h
+
+/-- everything `strtod` accepts is written in the number alphabet -/
+theorem parseDecimal_some {u : Str} {v : FVal} (h : parseDecimal u = some v) :
+    ∀ c ∈ u, floatAlpha c = true := by
+  rw [parseDecimal_eq] at h
+  have hb := parseBody_some h
+  intro c hc
+  rcases takeSign_cases u with ⟨h1, t, rfl⟩ | ⟨h1, t, rfl⟩ | ⟨h1, _⟩
+  · rw [h1] at hb
+    rcases List.mem_cons.mp hc with rfl | h'
+    · decide
+    · exact hb c (by simpa using h')
+  · rw [h1] at hb
+    rcases List.mem_cons.mp hc with rfl | h'
+    · decide
+    · exact hb c (by simpa using h')
+  · rw [h1] at hb
+    exact hb c hc
+
+/-! ### `float()` and `int()` -/
+
+theorem pyFloat_error {s : Str} {e : Exc} (h : pyFloat s = .error e) : e = .valueError := by
+  unfold pyFloat at h
+  simp only at h
+  split at h
+  · cases h; rfl
+  · split at h
+    · cases h
+    · cases h; rfl
+
+theorem pyFloat_ok_alpha {s : Str} {v : FVal} (h : pyFloat s = .ok v) :
+    ∀ c ∈ stripBy isNumWs s, floatAlpha c = true := by
+  unfold pyFloat at h
+  simp only at h
+  split at h
+  · cases h
+  · rename_i u hu
+    split at h
+    · rename_i v' hv
+      have ha := parseDecimal_some hv
+      intro c hc
+      split at hu
+      · split at hu
+        · cases hu
+          by_cases hcu : c = '_'
+          · subst hcu; decide
+          · exact ha c (mem_removeUnderscores hc hcu)
+        · cases hu
+      · cases hu
+        exact ha c hc
+    · cases h
+
+theorem pyFloat_bad {s : Str} {c : Char} (hc : c ∈ s) (hws : isNumWs c = false)
+    (hbad : floatAlpha c = false) : pyFloat s = .error .valueError := by
+  cases h : pyFloat s with
+  | ok v =>
+    have := pyFloat_ok_alpha h c (mem_stripBy_of_not hc hws)
+    rw [hbad] at this; cases this
+  | error e => rw [pyFloat_error h]
+
+theorem pyFloat_clean {u : Str} (hws : ∀ c ∈ u, isNumWs c = false) (hu : '_' ∉ u) :
+    pyFloat u = match parseDecimal u with
+      | some v => .ok v
+      | none => .error .valueError := by
+  unfold pyFloat
+  simp only
+  rw [stripBy_none hws]
+  have : u.contains '_' = false := by simpa using hu
+  rw [this]
+  rfl
+
+theorem pyFloat_of_strip {s u : Str} (hs : stripBy isNumWs s = u) (hu : '_' ∉ u) :
+    pyFloat s = match parseDecimal u with
+      | some v => .ok v
+      | none => .error .valueError := by
+  unfold pyFloat
+  simp only
+  rw [hs]
+  have : u.contains '_' = false := by simpa using hu
+  rw [this]
+  rfl
+
+/-! ### the `try` ladder of `fortran_float` -/
+
+/-- the part of `fortranFloat` after `s` has been normalised to `s2` -/
+def ffTail (s2 : Str) : Except Exc (FOut FVal) :=
+  match pyFloat s2 with
+  | .ok v => .ok (.val v)
+  | .error _ =>
+    match (headReplace s2 '-' ['e', '-'] >>= pyFloat) with
+    | .ok v => .ok (.val v)
+    | .error .valueError =>
+      match (headReplace s2 '+' ['e'] >>= pyFloat) with
+      | .ok v => .ok (.val v)
+      | .error .valueError => .ok (.val .nan)
+      | .error e => .error e
+    | .error e => .error e
+
+def ffS2 (s : Str) : Str := replaceChar ' ' [] (replaceChar 'd' ['e'] (lower (strip s)))
+
+theorem fortranFloat_ok {s : Str} {v : FVal} (h : pyFloat s = .ok v) :
+    fortranFloat s = .ok (.val v) := by
+  unfold fortranFloat; rw [h]
+
+theorem fortranFloat_err {s : Str} {e : Exc} (h : pyFloat s = .error e) :
+    fortranFloat s = if (strip s).isEmpty then .ok .blank else ffTail (ffS2 s) := by
+  have := pyFloat_error h; subst this
+  unfold fortranFloat ffTail ffS2; rw [h]
+  rfl
+
+/-- the ladder when `s2` is not empty (so `s2[0]` exists) -/
+def ffTail' (h : Char) (tl : Str) : Except Exc (FOut FVal) :=
+  match pyFloat (h :: tl) with
+  | .ok v => .ok (.val v)
+  | .error _ =>
+    match pyFloat (h :: replaceChar '-' ['e','-'] tl) with
+    | .ok v => .ok (.val v)
+    | .error _ =>
+      match pyFloat (h :: replaceChar '+' ['e'] tl) with
+      | .ok v => .ok (.val v)
+      | .error _ => .ok (.val .nan)
+
+theorem headReplace_cons (h : Char) (tl : Str) (c : Char) (t : Str) :
+    (headReplace (h :: tl) c t >>= pyFloat) = pyFloat (h :: replaceChar c t tl) := rfl
+
+theorem ffTail_cons (h : Char) (tl : Str) : ffTail (h :: tl) = ffTail' h tl := by
+  unfold ffTail ffTail'
+  rw [headReplace_cons, headReplace_cons]
+  cases h1 : pyFloat (h :: tl) with
+  | ok v => rfl
+  | error e1 =>
+    simp only
+    cases h2 : pyFloat (h :: replaceChar '-' ['e','-'] tl) with
+    | ok v => rfl
+    | error e2 =>
+      have := pyFloat_error h2; subst this
+      simp only
+      cases h3 : pyFloat (h :: replaceChar '+' ['e'] tl) with
+      | ok v => rfl
+      | error e3 =>
+        have := pyFloat_error h3; subst this
+        rfl
+
+theorem ffTail'_total (h : Char) (tl : Str) : ∃ o, ffTail' h tl = .ok o := by
+  unfold ffTail'
+  split
+  · exact ⟨_, rfl⟩
+  · split
+    · exact ⟨_, rfl⟩
+    · split <;> exact ⟨_, rfl⟩
+
+theorem ffTail'_nan {h : Char} {tl : Str}
+    (h1 : pyFloat (h :: tl) = .error .valueError)
+    (h2 : pyFloat (h :: replaceChar '-' ['e','-'] tl) = .error .valueError)
+    (h3 : pyFloat (h :: replaceChar '+' ['e'] tl) = .error .valueError) :
+    ffTail' h tl = .ok (.val .nan) := by
+  unfold ffTail'; rw [h1]; simp only; rw [h2]; simp only; rw [h3]
+
+/-- a non-blank character of `s` survives into `s2` (lower-cased) -/
+theorem mem_ffS2 {s : Str} {c : Char} (hc : c ∈ s) (hws : isStrWs c = false)
+    (hd : lowerChar c ≠ 'd') : lowerChar c ∈ ffS2 s := by
+  unfold ffS2
+  apply mem_replaceChar_of_ne
+  · apply mem_replaceChar_of_ne _ hd
+    exact mem_lower (mem_stripBy_of_not hc hws)
+  · intro e
+    have := isStrWs_lowerChar c
+    rw [e, hws] at this
+    revert this; decide
+
+theorem isNumWs_of_isStrWs_false {c : Char} (h : isStrWs c = false) : isNumWs c = false := by
+  unfold isStrWs at h
+  simp only [Bool.or_eq_false_iff] at h
+  exact h.1.1.1.1
+
+theorem strip_ne_nil {s : Str} {c : Char} (hc : c ∈ s) (hws : isStrWs c = false) :
+    (strip s).isEmpty = false := by
+  have : c ∈ strip s := mem_stripBy_of_not hc hws
+  cases hs : strip s with
+  | nil => rw [hs] at this; simp at this
+  | cons _ _ => rfl
+
+theorem fortranFloat_total (s : Str) : ∃ o, fortranFloat s = .ok o := by
+  cases h : pyFloat s with
+  | ok v => exact ⟨_, fortranFloat_ok h⟩
+  | error e =>
+    rw [fortranFloat_err h]
+    cases hs : strip s with
+    | nil => exact ⟨_, rfl⟩
+    | cons x xs =>
+      simp only [List.isEmpty_cons, Bool.false_eq_true, if_false]
+      have hx : isStrWs x = false := stripBy_head isStrWs s x xs hs
+      have hxs : x ∈ s := mem_of_mem_stripBy (p := isStrWs) (by unfold strip at hs; rw [hs]; simp)
+      -- some character survives into `s2`
+      have : ∃ y, y ∈ ffS2 s := by
+        by_cases hd : lowerChar x = 'd'
+        · refine ⟨'e', ?_⟩
+          unfold ffS2
+          apply mem_replaceChar_of_ne _ (by decide)
+          have hm : lowerChar x ∈ lower (strip s) := mem_lower (mem_stripBy_of_not hxs hx)
+          rw [hd] at hm
+          clear hs h
+          generalize lower (strip s) = l at hm
+          induction l with
+          | nil => simp at hm
+          | cons y ys ih =>
+            unfold replaceChar
+            rcases List.mem_cons.mp hm with rfl | h'
+            · simp
+            · split
+              · simp
+              · exact List.mem_cons_of_mem _ (ih h')
+        · exact ⟨_, mem_ffS2 hxs hx hd⟩
+      obtain ⟨y, hy⟩ := this
+      cases h2 : ffS2 s with
+      | nil => rw [h2] at hy; simp at hy
+      | cons a as => rw [ffTail_cons]; exact ffTail'_total a as
 
 theorem fortranFloat_blank (s : Str) (h : ∀ c ∈ s, isStrWs c = true) :
     fortranFloat s = .ok .blank := by
-  sorry
-
-theorem fortranInt_blank (s : Str) (h : ∀ c ∈ s, isStrWs c = true) :
-    fortranInt s = .ok .blank := by
-  sorry
+  have hs : strip s = [] := stripBy_all isStrWs s h
+  cases hp : pyFloat s with
+  | ok v =>
+    exfalso
+    have ha := pyFloat_ok_alpha hp
+    cases ht : stripBy isNumWs s with
+    | nil =>
+      have := pyFloat_of_strip ht (by simp)
+      rw [hp, show parseDecimal [] = none by decide] at this
+      cases this
+    | cons x xs =>
+      have hx : x ∈ stripBy isNumWs s := by rw [ht]; simp
+      have h1 := ha x hx
+      have h2 := h x (mem_of_mem_stripBy hx)
+      have h3 : isNumWs x = false := stripBy_head isNumWs s x xs ht
+      unfold isStrWs at h2
+      rw [h3] at h2
+      simp only [Bool.false_or, Bool.or_eq_true, decide_eq_true_eq] at h2
+      rcases h2 with ((rfl | rfl) | rfl) | rfl <;> revert h1 <;> decide
+  | error e =>
+    rw [fortranFloat_err hp, hs]; rfl
 
 theorem fortranFloat_bad (s : Str) (c : Char) (hc : c ∈ s)
     (hws : isStrWs c = false) (hbad : floatAlpha c = false) :
     fortranFloat s = .ok (.val .nan) := by
-  sorry
+  have hnw := isNumWs_of_isStrWs_false hws
+  have h1 := pyFloat_bad hc hnw hbad
+  rw [fortranFloat_err h1, strip_ne_nil hc hws]
+  simp only [Bool.false_eq_true, if_false]
+  -- the lower-cased bad character
+  have hbad' : floatAlpha (lowerChar c) = false := by rw [floatAlpha_lowerChar]; exact hbad
+  have hws' : isNumWs (lowerChar c) = false := by rw [isNumWs_lowerChar]; exact hnw
+  have hd : lowerChar c ≠ 'd' := by
+    intro e; rw [e] at hbad'; revert hbad'; decide
+  have hm : lowerChar c ∈ ffS2 s := mem_ffS2 hc hws hd
+  generalize lowerChar c = c' at hbad' hws' hm
+  cases h2 : ffS2 s with
+  | nil => rw [h2] at hm; simp at hm
+  | cons a as =>
+    rw [h2] at hm
+    rw [ffTail_cons]
+    have key : ∀ (x : Char) (t : Str), c' ≠ x → c' ∈ a :: replaceChar x t as := by
+      intro x t hx
+      rcases List.mem_cons.mp hm with rfl | h'
+      · simp
+      · exact List.mem_cons_of_mem _ (mem_replaceChar_of_ne h' hx)
+    apply ffTail'_nan
+    · exact pyFloat_bad hm hws' hbad'
+    · exact pyFloat_bad (key '-' _ (by intro e; rw [e] at hbad'; revert hbad'; decide)) hws' hbad'
+    · exact pyFloat_bad (key '+' _ (by intro e; rw [e] at hbad'; revert hbad'; decide)) hws' hbad'
+
+
+/-! ### `fortran_int` -/
+
+theorem isStrWs_mem {c : Char} (h : isStrWs c = true) :
+    c ∈ [' ','\t','\n','\x0b','\x0c','\r','\x1c','\x1d','\x1e','\x1f'] := by
+  unfold isStrWs isNumWs at h
+  simp only [Bool.or_eq_true, decide_eq_true_eq, or_assoc] at h
+  simp only [List.mem_cons, List.not_mem_nil, or_false]
+  exact h
+
+theorem isStrWs_elim {c : Char} (h : isStrWs c = true) {P : Char → Prop}
+    (hP : ∀ d ∈ [' ','\t','\n','\x0b','\x0c','\r','\x1c','\x1d','\x1e','\x1f'], P d) : P c :=
+  hP c (isStrWs_mem h)
+
+theorem intAlpha_digit {c : Char} (h : isDigit c = true) : intAlpha c = true :=
+  isDigit_elim h (P := fun d => intAlpha d = true) (by decide)
+
+/-- `int()` after the surrounding whitespace has been removed -/
+def pyIntCore (t : Str) : Except Exc Int :=
+  if (takeSign t).2.isEmpty then .error .valueError
+  else if !(underscoresOk '\x00' (takeSign t).2) then .error .valueError
+  else
+    if (removeUnderscores (takeSign t).2).isEmpty || !((removeUnderscores (takeSign t).2).all isDigit)
+    then .error .valueError
+    else .ok (if (takeSign t).1 then -(digitsVal (removeUnderscores (takeSign t).2) : Int)
+              else (digitsVal (removeUnderscores (takeSign t).2) : Int))
+
+theorem pyInt_eq (s : Str) : pyInt s = pyIntCore (stripBy isNumWs s) := rfl
+
+theorem pyIntCore_error {t : Str} {e : Exc} (h : pyIntCore t = .error e) : e = .valueError := by
+  unfold pyIntCore at h
+  split at h
+  · cases h; rfl
+  · split at h
+    · cases h; rfl
+    · split at h
+      · cases h; rfl
+      · cases h
+
+theorem pyInt_error {s : Str} {e : Exc} (h : pyInt s = .error e) : e = .valueError :=
+  pyIntCore_error (by rw [← pyInt_eq]; exact h)
+
+theorem pyIntCore_ok_alpha {t : Str} {v : Int} (h : pyIntCore t = .ok v) :
+    ∀ c ∈ t, intAlpha c = true := by
+  unfold pyIntCore at h
+  split at h
+  · cases h
+  · split at h
+    · cases h
+    · split at h
+      · cases h
+      · rename_i hc
+        simp only [Bool.or_eq_true, Bool.not_eq_true', not_or, Bool.not_eq_true,
+          Bool.not_eq_false] at hc
+        have hall := List.all_eq_true.mp hc.2
+        have hd : ∀ c ∈ (takeSign t).2, intAlpha c = true := by
+          intro c hc
+          by_cases hcu : c = '_'
+          · subst hcu; decide
+          · exact intAlpha_digit (hall c (mem_removeUnderscores hc hcu))
+        intro c hct
+        rcases takeSign_cases t with ⟨h1, t', rfl⟩ | ⟨h1, t', rfl⟩ | ⟨h1, _⟩
+        · rw [h1] at hd
+          rcases List.mem_cons.mp hct with rfl | h'
+          · decide
+          · exact hd c (by simpa using h')
+        · rw [h1] at hd
+          rcases List.mem_cons.mp hct with rfl | h'
+          · decide
+          · exact hd c (by simpa using h')
+        · rw [h1] at hd
+          exact hd c hct
+
+theorem pyInt_bad {s : Str} {c : Char} (hc : c ∈ s) (hws : isNumWs c = false)
+    (hbad : intAlpha c = false) : pyInt s = .error .valueError := by
+  cases h : pyInt s with
+  | ok v =>
+    rw [pyInt_eq] at h
+    have := pyIntCore_ok_alpha h c (mem_stripBy_of_not hc hws)
+    rw [hbad] at this; cases this
+  | error e => rw [pyInt_error h]
+
+theorem fortranInt_ok {s : Str} {v : Int} (h : pyInt s = .ok v) :
+    fortranInt s = .ok (.val (some v)) := by
+  unfold fortranInt; rw [h]
+
+theorem fortranInt_err {s : Str} {e : Exc} (h : pyInt s = .error e) :
+    fortranInt s = if (strip s).isEmpty then .ok .blank else
+      match pyInt (replaceChar ' ' [] (strip s)) with
+      | .ok v => .ok (.val (some v))
+      | .error _ => .ok (.val none) := by
+  have := pyInt_error h; subst this
+  unfold fortranInt; rw [h]
+  rfl
+
+theorem fortranInt_total (s : Str) : ∃ o, fortranInt s = .ok o := by
+  cases h : pyInt s with
+  | ok v => exact ⟨_, fortranInt_ok h⟩
+  | error e =>
+    rw [fortranInt_err h]
+    split
+    · exact ⟨_, rfl⟩
+    · split <;> exact ⟨_, rfl⟩
+
+theorem fortranInt_blank (s : Str) (h : ∀ c ∈ s, isStrWs c = true) :
+    fortranInt s = .ok .blank := by
+  have hs : strip s = [] := stripBy_all isStrWs s h
+  cases hp : pyInt s with
+  | ok v =>
+    exfalso
+    rw [pyInt_eq] at hp
+    have ha := pyIntCore_ok_alpha hp
+    cases ht : stripBy isNumWs s with
+    | nil =>
+      rw [ht, show pyIntCore [] = .error .valueError by decide] at hp
+      cases hp
+    | cons x xs =>
+      have hx : x ∈ stripBy isNumWs s := by rw [ht]; simp
+      have h1 := ha x hx
+      have h2 := h x (mem_of_mem_stripBy hx)
+      have : intAlpha x = false :=
+        isStrWs_elim h2 (P := fun d => intAlpha d = false) (by decide)
+      rw [this] at h1; cases h1
+  | error e =>
+    rw [fortranInt_err hp, hs]; rfl
 
 theorem fortranInt_bad (s : Str) (c : Char) (hc : c ∈ s)
     (hws : isStrWs c = false) (hbad : intAlpha c = false) :
     fortranInt s = .ok (.val none) := by
-  sorry
+  have hnw := isNumWs_of_isStrWs_false hws
+  rw [fortranInt_err (pyInt_bad hc hnw hbad), strip_ne_nil hc hws]
+  simp only [Bool.false_eq_true, if_false]
+  have hm : c ∈ replaceChar ' ' [] (strip s) := by
+    apply mem_replaceChar_of_ne (mem_stripBy_of_not hc hws)
+    intro e; rw [e] at hws; revert hws; decide
+  rw [pyInt_bad hm hnw hbad]
 
-theorem fortranFloat_reads (r : FReal) (hr : r.WF) (s : Str)
-    (hs : s.filter (· != ' ') = r.render) :
-    fortranFloat s = .ok (.val r.value) := by
-  sorry
+/-- stripping only removes blanks when every other character is unstrippable -/
+theorem filter_stripBy {p : Char → Bool} {s : Str} (h : ∀ c ∈ s, c = ' ' ∨ p c = false) :
+    (stripBy p s).filter (· != ' ') = s.filter (· != ' ') := by
+  obtain ⟨a, b, hs, ha, hb⟩ := stripBy_decomp p s
+  have hblank : ∀ (l : Str), (∀ c ∈ l, c ∈ s) → (∀ c ∈ l, p c = true) →
+      l.filter (· != ' ') = [] := by
+    intro l hl hp
+    rw [List.filter_eq_nil_iff]
+    intro c hc
+    rcases h c (hl c hc) with rfl | h'
+    · simp
+    · rw [hp c hc] at h'; cases h'
+  have e := congrArg (List.filter (· != ' ')) hs
+  rw [List.filter_append, List.filter_append, hblank a, hblank b] at e
+  · simpa using e.symm
+  · intro c hc; rw [hs]; simp [hc]
+  · exact hb
+  · intro c hc; rw [hs]; simp [hc]
+  · exact ha
+
+theorem filter_blank_self {l : Str} (h : ∀ c ∈ l, c ≠ ' ') : l.filter (· != ' ') = l := by
+  rw [List.filter_eq_self]; intro c hc; simpa using h c hc
+
+theorem mem_of_filter_eq {s u : Str} (hs : s.filter (· != ' ') = u) {c : Char} (hc : c ∈ u) :
+    c ∈ s := by
+  rw [← hs] at hc; exact (List.mem_filter.mp hc).1
+
+theorem blank_or_of_filter_eq {s u : Str} (hs : s.filter (· != ' ') = u) {c : Char} (hc : c ∈ s) :
+    c = ' ' ∨ c ∈ u := by
+  by_cases h : c = ' '
+  · exact Or.inl h
+  · right; rw [← hs]; exact List.mem_filter.mpr ⟨hc, by simpa using h⟩
+
+theorem underscoresOk_digits {ds : Str} (hd : ∀ c ∈ ds, isDigit c = true) :
+    ∀ prev, prev ≠ '_' → underscoresOk prev ds = true := by
+  induction ds with
+  | nil => intro prev hp; simpa [underscoresOk] using hp
+  | cons x xs ih =>
+    intro prev hp
+    have hx : isDigit x = true := hd x (by simp)
+    have hxu : x ≠ '_' := by intro e; rw [e] at hx; revert hx; decide
+    unfold underscoresOk
+    rw [if_neg hxu, ih (fun c hc => hd c (List.mem_cons_of_mem _ hc)) x hxu]
+    simp [hx]
+
+theorem removeUnderscores_digits {ds : Str} (hd : ∀ c ∈ ds, isDigit c = true) :
+    removeUnderscores ds = ds := by
+  unfold removeUnderscores
+  rw [List.filter_eq_self]
+  intro c hc
+  have hx := hd c hc
+  have : c ≠ '_' := by intro e; rw [e] at hx; revert hx; decide
+  simpa using this
+
+theorem digit_not_sign {ds : Str} (hd : ∀ c ∈ ds, isDigit c = true) :
+    ∀ x r, ds = x :: r → x ≠ '-' ∧ x ≠ '+' := by
+  intro x r h
+  have hx := hd x (by rw [h]; simp)
+  constructor <;> (intro e; rw [e] at hx; revert hx; decide)
+
+theorem takeSign_renderInt (neg plus : Bool) {ds : Str} (hd : ∀ c ∈ ds, isDigit c = true) :
+    takeSign (renderInt neg plus ds) = (neg, ds) := by
+  unfold renderInt
+  cases neg
+  · cases plus
+    · simpa using takeSign_nosign (digit_not_sign hd)
+    · rfl
+  · rfl
+
+theorem pyIntCore_renderInt (neg plus : Bool) {ds : Str} (hne : ds ≠ [])
+    (hd : ∀ c ∈ ds, isDigit c = true) :
+    pyIntCore (renderInt neg plus ds) =
+      .ok (if neg then -(digitsVal ds : Int) else digitsVal ds) := by
+  unfold pyIntCore
+  rw [takeSign_renderInt neg plus hd]
+  simp only
+  have h1 : ds.isEmpty = false := by cases ds with | nil => exact absurd rfl hne | cons _ _ => rfl
+  have h2 : ds.all isDigit = true := List.all_eq_true.mpr hd
+  rw [removeUnderscores_digits hd, underscoresOk_digits hd _ (by decide), h1, h2]
+  simp
+
+theorem renderInt_mem {neg plus : Bool} {ds : Str} (hd : ∀ c ∈ ds, isDigit c = true) :
+    ∀ c ∈ renderInt neg plus ds, isStrWs c = false ∧ c ≠ ' ' := by
+  have hdig : ∀ c, isDigit c = true → isStrWs c = false ∧ c ≠ ' ' := fun c h =>
+    isDigit_elim h (P := fun d => isStrWs d = false ∧ d ≠ ' ') (by decide)
+  intro c hc
+  unfold renderInt at hc
+  rcases List.mem_append.mp hc with h | h
+  · cases neg <;> cases plus <;> simp at h <;> subst h <;> decide
+  · exact hdig c (hd c h)
 
 theorem fortranInt_reads (neg plus : Bool) (ds : Str) (hd : ds ≠ []) (hdig : ∀ c ∈ ds, isDigit c = true)
     (s : Str) (hs : s.filter (· != ' ') = renderInt neg plus ds) :
     fortranInt s = .ok (.val (some (if neg then -(digitsVal ds : Int) else digitsVal ds))) := by
-  sorry
+  have hr := renderInt_mem (neg := neg) (plus := plus) hdig
+  -- every character of `s` is a blank or is not whitespace at all
+  have hsw : ∀ c ∈ s, c = ' ' ∨ isStrWs c = false := fun c hc =>
+    (blank_or_of_filter_eq hs hc).imp id (fun h => (hr c h).1)
+  have hsn : ∀ c ∈ s, c = ' ' ∨ isNumWs c = false := fun c hc =>
+    (hsw c hc).imp id isNumWs_of_isStrWs_false
+  have hcore : pyInt (renderInt neg plus ds) = .ok (if neg then -(digitsVal ds : Int) else digitsVal ds) := by
+    rw [pyInt_eq, stripBy_none (fun c hc => isNumWs_of_isStrWs_false (hr c hc).1)]
+    exact pyIntCore_renderInt neg plus hd hdig
+  cases h1 : pyInt s with
+  | ok v =>
+    rw [fortranInt_ok h1]
+    rw [pyInt_eq] at h1
+    have ha := pyIntCore_ok_alpha h1
+    have ht : stripBy isNumWs s = renderInt neg plus ds := by
+      rw [← hs, ← filter_stripBy hsn, filter_blank_self]
+      intro c hc e
+      have := ha c hc
+      rw [e] at this; revert this; decide
+    rw [ht, pyIntCore_renderInt neg plus hd hdig] at h1
+    cases h1; rfl
+  | error e =>
+    rw [fortranInt_err h1]
+    obtain ⟨x, xs, hx⟩ : ∃ x xs, ds = x :: xs := by
+      cases ds with
+      | nil => exact absurd rfl hd
+      | cons x xs => exact ⟨x, xs, rfl⟩
+    have hxr : x ∈ renderInt neg plus ds := by
+      unfold renderInt; rw [hx]; simp
+    rw [strip_ne_nil (mem_of_filter_eq hs hxr) (hr x hxr).1]
+    simp only [Bool.false_eq_true, if_false]
+    have : replaceChar ' ' [] (strip s) = renderInt neg plus ds := by
+      rw [replaceChar_nil_eq_filter]
+      unfold strip
+      rw [filter_stripBy hsw, hs]
+    rw [this, hcore]
+
+
+/-! ### printed reals -/
+
+/-- digits, the point and the signs -/
+def plainChar (c : Char) : Bool := isDigit c || c == '.' || c == '+' || c == '-'
+
+theorem plainChar_mem {c : Char} (h : plainChar c = true) :
+    c ∈ ['0','1','2','3','4','5','6','7','8','9','.','+','-'] := by
+  unfold plainChar at h
+  simp only [Bool.or_eq_true, beq_iff_eq] at h
+  rcases h with ((h | rfl) | rfl) | rfl
+  · exact List.mem_append_left ['.','+','-'] (isDigit_mem h)
+  · decide
+  · decide
+  · decide
+
+theorem plainChar_elim {c : Char} (h : plainChar c = true) {P : Char → Prop}
+    (hP : ∀ d ∈ ['0','1','2','3','4','5','6','7','8','9','.','+','-'], P d) : P c :=
+  hP c (plainChar_mem h)
+
+theorem plainChar_digit {c : Char} (h : isDigit c = true) : plainChar c = true := by
+  unfold plainChar; simp [h]
+
+theorem plainChar_facts {c : Char} (h : plainChar c = true) :
+    lowerChar c = c ∧ c ≠ 'd' ∧ c ≠ 'e' ∧ isStrWs c = false ∧ isNumWs c = false ∧ c ≠ '_' ∧ c ≠ ' ' :=
+  plainChar_elim h
+    (P := fun c => lowerChar c = c ∧ c ≠ 'd' ∧ c ≠ 'e' ∧ isStrWs c = false ∧ isNumWs c = false ∧ c ≠ '_' ∧ c ≠ ' ')
+    (by decide)
+
+theorem digit_facts {c : Char} (h : isDigit c = true) :
+    c ≠ '-' ∧ c ≠ '+' ∧ c ≠ '.' ∧ c ≠ 'i' ∧ c ≠ 'n' :=
+  isDigit_elim h (P := fun c => c ≠ '-' ∧ c ≠ '+' ∧ c ≠ '.' ∧ c ≠ 'i' ∧ c ≠ 'n') (by decide)
+
+theorem Sign_chars_plain (sg : Sign) : ∀ c ∈ sg.chars, plainChar c = true := by
+  cases sg <;> simp [Sign.chars] <;> decide
+
+theorem takeWhile_append_stop {p : Char → Bool} {ds rest : Str} (hd : ∀ c ∈ ds, p c = true)
+    (hr : ∀ x r, rest = x :: r → p x = false) : (ds ++ rest).takeWhile p = ds := by
+  have := span_append hd hr; rw [span_eq] at this; exact (Prod.mk.inj this).1
+
+theorem dropWhile_append_stop {p : Char → Bool} {ds rest : Str} (hd : ∀ c ∈ ds, p c = true)
+    (hr : ∀ x r, rest = x :: r → p x = false) : (ds ++ rest).dropWhile p = rest := by
+  have := span_append hd hr; rw [span_eq] at this; exact (Prod.mk.inj this).2
+
+theorem parseNum_of {neg : Bool} {s1 ip r1 fp r2 : Str} (h1 : s1.takeWhile isDigit = ip)
+    (h2 : s1.dropWhile isDigit = r1) (h3 : fracPart r1 = (fp, r2))
+    (hne : (ip.isEmpty && fp.isEmpty) = false) :
+    parseNum neg s1 = match parseExp r2 with
+      | some e => some (.fin neg (digitsVal (ip ++ fp)) (e - fp.length))
+      | none => none := by
+  unfold parseNum
+  simp only [h1, h2, h3, hne]
+  rfl
+
+theorem parseBody_of_head {neg : Bool} {x : Char} {t : Str} (hx : isDigit x = true ∨ x = '.') :
+    parseBody neg (x :: t) = parseNum neg (x :: t) := by
+  have hl : lowerChar x = x := by
+    rcases hx with h | rfl
+    · exact lowerChar_digit h
+    · decide
+  have hi : x ≠ 'i' ∧ x ≠ 'n' := by
+    rcases hx with h | rfl
+    · exact ⟨(digit_facts h).2.2.2.1, (digit_facts h).2.2.2.2⟩
+    · decide
+  unfold parseBody
+  have : lower (x :: t) = x :: lower t := by simp [lower, hl]
+  rw [this]
+  simp [hi.1, hi.2]
+
+/-- the unsigned mantissa `ip [.] fp` followed by `rest` -/
+theorem parseNum_um {neg : Bool} {ip fp rest : Str} {point : Bool}
+    (hip : ∀ c ∈ ip, isDigit c = true) (hfp : ∀ c ∈ fp, isDigit c = true)
+    (hne : ¬ (ip = [] ∧ fp = [])) (hpt : fp ≠ [] → point = true)
+    (hrest : ∀ x t, rest = x :: t → isDigit x = false ∧ x ≠ '.') :
+    parseNum neg (ip ++ ((if point then ['.'] else []) ++ (fp ++ rest))) =
+      match parseExp rest with
+      | some e => some (.fin neg (digitsVal (ip ++ fp)) (e - fp.length))
+      | none => none := by
+  have hr1 : ∀ x t, rest = x :: t → isDigit x = false := fun x t h => (hrest x t h).1
+  cases point with
+  | true =>
+    simp only [if_true, List.cons_append, List.nil_append]
+    apply parseNum_of (r1 := '.' :: (fp ++ rest))
+    · exact takeWhile_append_stop hip (by intro x r h; cases h; decide)
+    · exact dropWhile_append_stop hip (by intro x r h; cases h; decide)
+    · rw [fracPart_dot, takeWhile_append_stop hfp hr1, dropWhile_append_stop hfp hr1]
+    · cases ip with
+      | nil =>
+        cases fp with
+        | nil => exact absurd ⟨rfl, rfl⟩ hne
+        | cons _ _ => rfl
+      | cons _ _ => rfl
+  | false =>
+    have hfp0 : fp = [] := by
+      cases fp with
+      | nil => rfl
+      | cons a b => have := hpt (by simp); cases this
+    subst hfp0
+    simp only [Bool.false_eq_true, if_false, List.nil_append]
+    apply parseNum_of (r1 := rest)
+    · exact takeWhile_append_stop hip hr1
+    · exact dropWhile_append_stop hip hr1
+    · exact fracPart_other (fun x t h => (hrest x t h).2)
+    · cases ip with
+      | nil => exact absurd ⟨rfl, rfl⟩ hne
+      | cons _ _ => rfl
+
+theorem um_cons {ip fp : Str} {point : Bool}
+    (hip : ∀ c ∈ ip, isDigit c = true) (hfp : ∀ c ∈ fp, isDigit c = true)
+    (hne : ¬ (ip = [] ∧ fp = [])) :
+    ∃ x t, ip ++ ((if point then ['.'] else []) ++ fp) = x :: t ∧
+      (isDigit x = true ∨ x = '.') ∧ ∀ c ∈ t, isDigit c = true ∨ c = '.' := by
+  have hall : ∀ c ∈ ip ++ ((if point then ['.'] else []) ++ fp), isDigit c = true ∨ c = '.' := by
+    intro c hc
+    rcases List.mem_append.mp hc with h | h
+    · exact Or.inl (hip c h)
+    · rcases List.mem_append.mp h with h | h
+      · cases point <;> simp at h
+        exact Or.inr h
+      · exact Or.inl (hfp c h)
+  cases hum : ip ++ ((if point then ['.'] else []) ++ fp) with
+  | nil =>
+    simp only [List.append_eq_nil_iff] at hum
+    exact absurd ⟨hum.1, hum.2.2⟩ hne
+  | cons x t =>
+    rw [hum] at hall
+    exact ⟨x, t, rfl, hall x (by simp), fun c hc => hall c (List.mem_cons_of_mem _ hc)⟩
+
+def FReal.mant (r : FReal) : Str :=
+  r.sign.chars ++ (r.ip ++ ((if r.point then ['.'] else []) ++ r.fp))
+
+theorem render_eq (r : FReal) : r.render = r.mant ++ r.ex.chars := by
+  simp [FReal.render, FReal.mant, List.append_assoc]
+
+theorem mant_cons (r : FReal) (hr : r.WF) :
+    ∃ h m', r.mant = h :: m' ∧ ∀ c ∈ m', isDigit c = true ∨ c = '.' := by
+  obtain ⟨sg, ip, point, fp, ex⟩ := r
+  obtain ⟨hip, hfp, hne, hpt, _⟩ := hr
+  simp only at hip hfp hne hpt
+  obtain ⟨x, t, hum, hx, ht⟩ := um_cons (point := point) hip hfp hne
+  simp only [FReal.mant]
+  rw [hum]
+  cases sg with
+  | none => exact ⟨x, t, rfl, ht⟩
+  | plus =>
+    refine ⟨'+', x :: t, rfl, ?_⟩
+    intro c hc
+    rcases List.mem_cons.mp hc with rfl | h
+    · exact hx
+    · exact ht c h
+  | minus =>
+    refine ⟨'-', x :: t, rfl, ?_⟩
+    intro c hc
+    rcases List.mem_cons.mp hc with rfl | h
+    · exact hx
+    · exact ht c h
+
+theorem mant_plain (r : FReal) (hr : r.WF) : ∀ c ∈ r.mant, plainChar c = true := by
+  obtain ⟨hip, hfp, _, _, _⟩ := hr
+  intro c hc
+  unfold FReal.mant at hc
+  rcases List.mem_append.mp hc with h | h
+  · exact Sign_chars_plain _ c h
+  · rcases List.mem_append.mp h with h | h
+    · exact plainChar_digit (hip c h)
+    · rcases List.mem_append.mp h with h | h
+      · cases hp : r.point <;> rw [hp] at h <;> simp at h
+        subst h; decide
+      · exact plainChar_digit (hfp c h)
+
+/-- `strtod` on a printed mantissa followed by `rest` -/
+theorem parseDecimal_mant (r : FReal) (hr : r.WF) (rest : Str)
+    (hrest : ∀ x t, rest = x :: t → isDigit x = false ∧ x ≠ '.') :
+    parseDecimal (r.mant ++ rest) =
+      match parseExp rest with
+      | some e => some (.fin (decide (r.sign = .minus)) (digitsVal (r.ip ++ r.fp)) (e - r.fp.length))
+      | none => none := by
+  obtain ⟨sg, ip, point, fp, ex⟩ := r
+  obtain ⟨hip, hfp, hne, hpt, _⟩ := hr
+  simp only at hip hfp hne hpt
+  simp only [FReal.mant, List.append_assoc]
+  obtain ⟨x, t, hum, hx, _⟩ := um_cons (point := point) hip hfp hne
+  have hum' : ip ++ ((if point then ['.'] else []) ++ (fp ++ rest)) = x :: (t ++ rest) := by
+    have := congrArg (· ++ rest) hum
+    simpa [List.append_assoc] using this
+  have hts : takeSign (sg.chars ++ (ip ++ ((if point then ['.'] else []) ++ (fp ++ rest)))) =
+      (decide (sg = .minus), ip ++ ((if point then ['.'] else []) ++ (fp ++ rest))) := by
+    cases sg with
+    | none =>
+      simp only [Sign.chars, List.nil_append]
+      rw [hum']
+      have : takeSign (x :: (t ++ rest)) = (false, x :: (t ++ rest)) := by
+        apply takeSign_nosign
+        intro y r h
+        cases h
+        rcases hx with h | rfl
+        · exact ⟨(digit_facts h).1, (digit_facts h).2.1⟩
+        · decide
+      rw [this]; rfl
+    | plus => rfl
+    | minus => rfl
+  rw [parseDecimal_eq, hts]
+  simp only
+  rw [hum', parseBody_of_head hx, ← hum']
+  exact parseNum_um hip hfp hne hpt hrest
+
+theorem takeSign_signDigits (sg : Sign) {ds : Str} (hd : ∀ c ∈ ds, isDigit c = true) :
+    takeSign (sg.chars ++ ds) = (decide (sg = .minus), ds) := by
+  cases sg with
+  | none => simpa [Sign.chars] using takeSign_nosign (digit_not_sign hd)
+  | plus => rfl
+  | minus => rfl
+
+theorem parseExp_letter {l : Char} (sg : Sign) {ds : Str} (hl : l = 'E' ∨ l = 'e')
+    (hne : ds ≠ []) (hd : ∀ c ∈ ds, isDigit c = true) :
+    parseExp (l :: (sg.chars ++ ds)) =
+      some (if sg = .minus then -(digitsVal ds : Int) else digitsVal ds) := by
+  rw [parseExp_cons]
+  have : (decide (l = 'e') || decide (l = 'E')) = true := by
+    rcases hl with rfl | rfl <;> decide
+  rw [if_pos this]
+  unfold parseExpTail
+  rw [takeSign_signDigits sg hd]
+  simp only
+  rw [takeWhile_all hd, dropWhile_all hd]
+  have h1 : ds.isEmpty = false := by cases ds with | nil => exact absurd rfl hne | cons _ _ => rfl
+  simp [h1]
+
+theorem parseExp_none {l : Char} (rest : Str) (hl : l ≠ 'e' ∧ l ≠ 'E') :
+    parseExp (l :: rest) = none := by
+  rw [parseExp_cons]
+  simp [hl.1, hl.2]
+
+/-- level 1: Python reads a blank-free printed real correctly or not at all -/
+theorem parseDecimal_render (r : FReal) (hr : r.WF) :
+    parseDecimal r.render = some r.value ∨ parseDecimal r.render = none := by
+  have hex := hr.2.2.2.2
+  rw [render_eq]
+  cases he : r.ex with
+  | absent =>
+    left
+    rw [parseDecimal_mant r hr _ (by intro x t h; simp [ExpForm.chars] at h)]
+    simp [ExpForm.chars, parseExp, FReal.value, he, ExpForm.val]
+  | letter l sg ds =>
+    rw [he] at hex
+    obtain ⟨hl, hne, hd⟩ := hex
+    have hrest : ∀ x t, ExpForm.chars (.letter l sg ds) = x :: t → isDigit x = false ∧ x ≠ '.' := by
+      intro x t h
+      simp only [ExpForm.chars, List.cons_append, List.cons.injEq] at h
+      rw [← h.1]
+      rcases hl with rfl | rfl | rfl | rfl <;> decide
+    rw [parseDecimal_mant r hr _ hrest]
+    simp only [ExpForm.chars, List.cons_append]
+    rcases hl with rfl | rfl | rfl | rfl
+    · left
+      rw [parseExp_letter sg (Or.inl rfl) hne hd]
+      simp [FReal.value, he, ExpForm.val]
+    · left
+      rw [parseExp_letter sg (Or.inr rfl) hne hd]
+      simp [FReal.value, he, ExpForm.val]
+    · right; rw [parseExp_none _ (by decide)]
+    · right; rw [parseExp_none _ (by decide)]
+  | bare neg ds =>
+    right
+    have hrest : ∀ x t, ExpForm.chars (.bare neg ds) = x :: t → isDigit x = false ∧ x ≠ '.' := by
+      intro x t h
+      simp only [ExpForm.chars, List.cons.injEq] at h
+      rw [← h.1]
+      cases neg <;> decide
+    rw [parseDecimal_mant r hr _ hrest]
+    simp only [ExpForm.chars]
+    rw [parseExp_none _ (by cases neg <;> decide)]
+
+
+/-! ### the later levels of the ladder on a printed real -/
+
+theorem plain_lower {l : Str} (h : ∀ c ∈ l, plainChar c = true) : lower l = l :=
+  lower_fixed (fun c hc => (plainChar_facts (h c hc)).1)
+
+theorem plain_no_d {l : Str} (h : ∀ c ∈ l, plainChar c = true) :
+    replaceChar 'd' ['e'] l = l :=
+  replaceChar_of_not_mem (fun hd => (plainChar_facts (h _ hd)).2.1 rfl)
+
+theorem signDigits_plain (sg : Sign) {ds : Str} (hd : ∀ c ∈ ds, isDigit c = true) :
+    ∀ c ∈ sg.chars ++ ds, plainChar c = true := by
+  intro c hc
+  rcases List.mem_append.mp hc with h | h
+  · exact Sign_chars_plain sg c h
+  · exact plainChar_digit (hd c h)
+
+/-- the exponent part after `.lower().replace('d','e')` -/
+def normEx : ExpForm → Str
+  | .absent => []
+  | .letter _ sg ds => 'e' :: (sg.chars ++ ds)
+  | .bare neg ds => (if neg then '-' else '+') :: ds
+
+theorem normEx_eq (ex : ExpForm) (hex : ex.WF) :
+    replaceChar 'd' ['e'] (lower ex.chars) = normEx ex := by
+  cases ex with
+  | absent => rfl
+  | letter l sg ds =>
+    obtain ⟨hl, _, hd⟩ := hex
+    have hp := signDigits_plain sg hd
+    simp only [ExpForm.chars, normEx, List.cons_append]
+    have : lower (l :: (sg.chars ++ ds)) = lowerChar l :: (sg.chars ++ ds) := by
+      have := plain_lower hp
+      simp only [lower] at this ⊢
+      rw [List.map_cons, this]
+    rw [this]
+    unfold replaceChar
+    rw [plain_no_d hp]
+    rcases hl with rfl | rfl | rfl | rfl <;> rfl
+  | bare neg ds =>
+    obtain ⟨_, hd⟩ := hex
+    have hp : ∀ c ∈ ExpForm.chars (.bare neg ds), plainChar c = true := by
+      intro c hc
+      simp only [ExpForm.chars] at hc
+      rcases List.mem_cons.mp hc with rfl | h
+      · cases neg <;> decide
+      · exact plainChar_digit (hd c h)
+    rw [plain_lower hp, plain_no_d hp]
+    rfl
+
+theorem exChars_facts (ex : ExpForm) (hex : ex.WF) :
+    ∀ c ∈ ex.chars, isStrWs c = false ∧ c ≠ '_' := by
+  have hplain : ∀ c, plainChar c = true → isStrWs c = false ∧ c ≠ '_' := fun c h =>
+    ⟨(plainChar_facts h).2.2.2.1, (plainChar_facts h).2.2.2.2.2.1⟩
+  intro c hc
+  cases ex with
+  | absent => simp [ExpForm.chars] at hc
+  | letter l sg ds =>
+    obtain ⟨hl, _, hd⟩ := hex
+    simp only [ExpForm.chars, List.cons_append] at hc
+    rcases List.mem_cons.mp hc with rfl | h
+    · rcases hl with rfl | rfl | rfl | rfl <;> decide
+    · exact hplain c (signDigits_plain sg hd c h)
+  | bare neg ds =>
+    obtain ⟨_, hd⟩ := hex
+    simp only [ExpForm.chars] at hc
+    rcases List.mem_cons.mp hc with rfl | h
+    · cases neg <;> decide
+    · exact hplain c (plainChar_digit (hd c h))
+
+theorem render_facts (r : FReal) (hr : r.WF) :
+    ∀ c ∈ r.render, isStrWs c = false ∧ c ≠ '_' := by
+  intro c hc
+  rw [render_eq] at hc
+  rcases List.mem_append.mp hc with h | h
+  · have := plainChar_facts (mant_plain r hr c h)
+    exact ⟨this.2.2.2.1, this.2.2.2.2.2.1⟩
+  · exact exChars_facts r.ex hr.2.2.2.2 c h
+
+theorem ffS2_eq (r : FReal) (hr : r.WF) (s : Str) (hs : s.filter (· != ' ') = r.render) :
+    ffS2 s = r.mant ++ normEx r.ex := by
+  have hsw : ∀ c ∈ s, c = ' ' ∨ isStrWs c = false := fun c hc =>
+    (blank_or_of_filter_eq hs hc).imp id (fun h => (render_facts r hr c h).1)
+  have hm := mant_plain r hr
+  unfold ffS2
+  rw [replaceChar_nil_eq_filter, filter_replaceChar (by decide) (by decide), filter_lower]
+  unfold strip
+  rw [filter_stripBy hsw, hs, render_eq, lower_append, replaceChar_append, plain_lower hm,
+    plain_no_d hm, normEx_eq r.ex hr.2.2.2.2]
+
+/-- `float()` on a printed mantissa followed by a clean `rest` -/
+theorem pyFloat_mant (r : FReal) (hr : r.WF) (rest : Str)
+    (hclean : ∀ c ∈ rest, isNumWs c = false ∧ c ≠ '_')
+    (hrest : ∀ x t, rest = x :: t → isDigit x = false ∧ x ≠ '.') :
+    pyFloat (r.mant ++ rest) =
+      match parseExp rest with
+      | some e => .ok (.fin (decide (r.sign = .minus)) (digitsVal (r.ip ++ r.fp)) (e - r.fp.length))
+      | none => .error .valueError := by
+  have hall : ∀ c ∈ r.mant ++ rest, isNumWs c = false ∧ c ≠ '_' := by
+    intro c hc
+    rcases List.mem_append.mp hc with h | h
+    · have := plainChar_facts (mant_plain r hr c h)
+      exact ⟨this.2.2.2.2.1, this.2.2.2.2.2.1⟩
+    · exact hclean c h
+  rw [pyFloat_clean (fun c hc => (hall c hc).1) (fun h => (hall _ h).2 rfl),
+    parseDecimal_mant r hr rest hrest]
+  cases parseExp rest <;> rfl
+
+theorem eDigits_clean (sg : Sign) {ds : Str} (hd : ∀ c ∈ ds, isDigit c = true) :
+    ∀ c ∈ 'e' :: (sg.chars ++ ds), isNumWs c = false ∧ c ≠ '_' := by
+  intro c hc
+  rcases List.mem_cons.mp hc with rfl | h
+  · decide
+  · have := plainChar_facts (signDigits_plain sg hd c h)
+    exact ⟨this.2.2.2.2.1, this.2.2.2.2.2.1⟩
+
+theorem eDigits_head (sg : Sign) (ds : Str) :
+    ∀ x t, 'e' :: (sg.chars ++ ds) = x :: t → isDigit x = false ∧ x ≠ '.' := by
+  intro x t h; cases h; decide
+
+/-- `float()` on mantissa + `e` + sign + digits -/
+theorem pyFloat_mant_e (r : FReal) (hr : r.WF) (sg : Sign) {ds : Str} (hne : ds ≠ [])
+    (hd : ∀ c ∈ ds, isDigit c = true) :
+    pyFloat (r.mant ++ 'e' :: (sg.chars ++ ds)) =
+      .ok (.fin (decide (r.sign = .minus)) (digitsVal (r.ip ++ r.fp))
+        ((if sg = .minus then -(digitsVal ds : Int) else digitsVal ds) - r.fp.length)) := by
+  rw [pyFloat_mant r hr _ (eDigits_clean sg hd) (eDigits_head sg ds),
+    parseExp_letter sg (Or.inr rfl) hne hd]
+
+/-- `float()` on mantissa + bare signed exponent fails -/
+theorem pyFloat_mant_bare (r : FReal) (hr : r.WF) (neg : Bool) {ds : Str}
+    (hd : ∀ c ∈ ds, isDigit c = true) :
+    pyFloat (r.mant ++ (if neg then '-' else '+') :: ds) = .error .valueError := by
+  rw [pyFloat_mant r hr]
+  · rw [parseExp_none _ (by cases neg <;> decide)]
+  · intro c hc
+    rcases List.mem_cons.mp hc with rfl | h
+    · cases neg <;> decide
+    · have := plainChar_facts (plainChar_digit (hd c h))
+      exact ⟨this.2.2.2.2.1, this.2.2.2.2.2.1⟩
+  · intro x t h; cases h; cases neg <;> decide
+
+theorem ffTail'_ok1 {h : Char} {tl : Str} {v : FVal} (h1 : pyFloat (h :: tl) = .ok v) :
+    ffTail' h tl = .ok (.val v) := by
+  unfold ffTail'; rw [h1]
+
+theorem ffTail'_ok2 {h : Char} {tl : Str} {v : FVal} {e : Exc} (h1 : pyFloat (h :: tl) = .error e)
+    (h2 : pyFloat (h :: replaceChar '-' ['e','-'] tl) = .ok v) :
+    ffTail' h tl = .ok (.val v) := by
+  unfold ffTail'; rw [h1]; simp only; rw [h2]
+
+theorem ffTail'_ok3 {h : Char} {tl : Str} {v : FVal} {e e' : Exc} (h1 : pyFloat (h :: tl) = .error e)
+    (h2 : pyFloat (h :: replaceChar '-' ['e','-'] tl) = .error e')
+    (h3 : pyFloat (h :: replaceChar '+' ['e'] tl) = .ok v) :
+    ffTail' h tl = .ok (.val v) := by
+  unfold ffTail'; rw [h1]; simp only; rw [h2]; simp only; rw [h3]
+
+theorem not_mem_of_digitOrPoint {l : Str} (h : ∀ c ∈ l, isDigit c = true ∨ c = '.') :
+    '-' ∉ l ∧ '+' ∉ l := by
+  constructor <;> intro hm <;> rcases h _ hm with hd | e
+  · revert hd; decide
+  · revert e; decide
+  · revert hd; decide
+  · revert e; decide
+
+theorem not_mem_of_digits {l : Str} (h : ∀ c ∈ l, isDigit c = true) : '-' ∉ l ∧ '+' ∉ l :=
+  not_mem_of_digitOrPoint (fun c hc => Or.inl (h c hc))
+
+theorem ffTail'_value (r : FReal) (hr : r.WF) (h : Char) (m' : Str) (hm : r.mant = h :: m')
+    (hm' : ∀ c ∈ m', isDigit c = true ∨ c = '.') :
+    ffTail' h (m' ++ normEx r.ex) = .ok (.val r.value) := by
+  have e : ∀ X, h :: (m' ++ X) = r.mant ++ X := by intro X; rw [hm]; rfl
+  have hex := hr.2.2.2.2
+  have hnm := not_mem_of_digitOrPoint hm'
+  cases he : r.ex with
+  | absent =>
+    apply ffTail'_ok1
+    rw [e, pyFloat_mant r hr _ (by simp [normEx]) (by simp [normEx])]
+    simp [normEx, parseExp, FReal.value, he, ExpForm.val]
+  | letter l sg ds =>
+    rw [he] at hex
+    obtain ⟨_, hne, hd⟩ := hex
+    apply ffTail'_ok1
+    simp only [normEx]
+    rw [e, pyFloat_mant_e r hr sg hne hd]
+    simp [FReal.value, he, ExpForm.val]
+  | bare neg ds =>
+    rw [he] at hex
+    obtain ⟨hne, hd⟩ := hex
+    have hnd := not_mem_of_digits hd
+    simp only [normEx]
+    have h1 : pyFloat (h :: (m' ++ (if neg then '-' else '+') :: ds)) = .error .valueError := by
+      rw [e]; exact pyFloat_mant_bare r hr neg hd
+    cases neg with
+    | true =>
+      apply ffTail'_ok2 h1
+      have : replaceChar '-' ['e','-'] (m' ++ '-' :: ds) = m' ++ 'e' :: (Sign.minus.chars ++ ds) := by
+        rw [replaceChar_append, replaceChar_of_not_mem hnm.1]
+        unfold replaceChar
+        rw [if_pos rfl, replaceChar_of_not_mem hnd.1]
+        rfl
+      simp only [if_true]
+      rw [this, e, pyFloat_mant_e r hr .minus hne hd]
+      simp [FReal.value, he, ExpForm.val]
+    | false =>
+      simp only [Bool.false_eq_true, if_false] at h1 ⊢
+      have h2 : replaceChar '-' ['e','-'] (m' ++ '+' :: ds) = m' ++ '+' :: ds := by
+        apply replaceChar_of_not_mem
+        intro hmem
+        rcases List.mem_append.mp hmem with h' | h'
+        · exact hnm.1 h'
+        · rcases List.mem_cons.mp h' with h'' | h''
+          · revert h''; decide
+          · exact hnd.1 h''
+      apply ffTail'_ok3 h1 (by rw [h2]; exact h1)
+      have : replaceChar '+' ['e'] (m' ++ '+' :: ds) = m' ++ 'e' :: (Sign.none.chars ++ ds) := by
+        rw [replaceChar_append, replaceChar_of_not_mem hnm.2]
+        unfold replaceChar
+        rw [if_pos rfl, replaceChar_of_not_mem hnd.2]
+        rfl
+      rw [this, e, pyFloat_mant_e r hr .none hne hd]
+      simp [FReal.value, he, ExpForm.val]
+
+theorem fortranFloat_reads (r : FReal) (hr : r.WF) (s : Str)
+    (hs : s.filter (· != ' ') = r.render) :
+    fortranFloat s = .ok (.val r.value) := by
+  have hrw := render_facts r hr
+  have hsn : ∀ c ∈ s, c = ' ' ∨ isNumWs c = false := fun c hc =>
+    (blank_or_of_filter_eq hs hc).imp id (fun h => isNumWs_of_isStrWs_false (hrw c h).1)
+  cases h1 : pyFloat s with
+  | ok v =>
+    rw [fortranFloat_ok h1]
+    have ha := pyFloat_ok_alpha h1
+    have ht : stripBy isNumWs s = r.render := by
+      rw [← hs, ← filter_stripBy hsn, filter_blank_self]
+      intro c hc e
+      have := ha c hc
+      rw [e] at this; revert this; decide
+    have := pyFloat_of_strip ht (fun h => (hrw _ h).2 rfl)
+    rw [h1] at this
+    rcases parseDecimal_render r hr with hp | hp <;> rw [hp] at this <;> cases this
+    rfl
+  | error e =>
+    rw [fortranFloat_err h1]
+    obtain ⟨h, m', hm, hm'⟩ := mant_cons r hr
+    have hhr : h ∈ r.render := by rw [render_eq, hm]; simp
+    rw [strip_ne_nil (mem_of_filter_eq hs hhr) (hrw h hhr).1]
+    simp only [Bool.false_eq_true, if_false]
+    rw [ffS2_eq r hr s hs, hm]
+    simp only [List.cons_append]
+    rw [ffTail_cons]
+    exact ffTail'_value r hr h m' hm hm'
 
 end Proofs
